@@ -183,6 +183,26 @@ def run(env):
                     env.violation("public key does not survive serialization on %s: %s" % (ctx, str(o)[:80]), {"kind": "battery", "case": [src, c], "out": o})
             allbig += items
     fails += env.tie(allbig, "C01-scripted", shard=100)
+    # ---------------- several parameter sets and both multiplicative backends interleaved in ONE process, twice in
+    # opposite orders (anything cached across calls must be keyed by the parameter set): encrypt -> wire -> decrypt
+    for order in (["B:2048", "B:59", "M:59", "B:23", "M:2048", "B:%d" % P62, "M:23", "B:65267", "M:%d" % P62],
+                  ["M:23", "B:23", "B:59", "B:65267", "M:%d" % P62, "B:2048", "M:59", "M:2048", "B:%d" % P62]):
+        mix = []
+        for ctx in order * 2:
+            p_, q_, g_ = pq(ctx); sk = r.randrange(1, q_); m = rnd_member(r, ctx)
+            mix.append({"ctx": ctx, "op": "encrypt_r", "args": [str(pow(g_, sk, p_)), str(m), str(r.randrange(q_))], "_sk": sk, "_m": str(m), "tag": "mixed-sets"})
+        o_enc = env.harness(mix)
+        ser = [{"ctx": c["ctx"], "op": "ser_c", "args": [o], "tag": "mixed-sets"} for c, o in zip(mix, o_enc)]
+        o_ser = env.harness(ser)
+        de = [{"ctx": c["ctx"], "op": "de_c", "args": [o], "tag": "mixed-sets"} for c, o in zip(mix, o_ser)]
+        o_de = env.harness(de)
+        dec = [{"ctx": c["ctx"], "op": "decrypt", "args": [str(c["_sk"]), o], "tag": "mixed-sets"} for c, o in zip(mix, o_de)]
+        o_dec = env.harness([d if isinstance(d["args"][1], list) else {"ctx": d["ctx"], "op": "gen", "args": [], "tag": "mixed-sets"} for d in dec])
+        for c, oc, od, om in zip(mix, o_enc, o_de, o_dec):
+            if od != oc or om != c["_m"]:
+                env.violation("round trip through the wire format broken on %s when several parameter sets are used in one process (order %s): decoded %s, decrypted %s"
+                              % (c["ctx"], order[:3], str(od)[:60], str(om)[:40]), {"kind": "battery", "case": [c, {"ctx": c["ctx"], "op": "de_c", "args": [o_ser[mix.index(c)]]}], "out": [od, om]})
+                break
     # ---------------- ristretto battery (implementation only; the theorem covers it under the group-law hypothesis)
     rc = []
     pts = ["00" * 30, "ff" * 30, "01" + "00" * 29, "00" * 29 + "80"] + [r.randbytes(30).hex() for _ in range(4 if env.quick else 40)]
